@@ -159,6 +159,12 @@ impl<E: Engine + Debug> ParamsKZG<E> {
         let mut k = [0u8; 4];
         reader.read_exact(&mut k[..])?;
         let k = u32::from_le_bytes(k);
+        if k > E::Fr::S {
+            return Err(io::Error::new(
+                io::ErrorKind::InvalidData,
+                "params size value (k) exceeds the two-adicity of the scalar field",
+            ));
+        }
         let n = 1 << k;
 
         let (g, g_lagrange) = match format {
